@@ -1182,13 +1182,16 @@ def selftest_determinism(n_runs):
     R = ["ring", "pem", "x509-parser"]
     N = ["pem", "x509-parser"]
     shim_env = {"LD_PRELOAD": build_shim(), "DETSYS_RAND_SEED": str(seed())}
+    A = ["aws_lc_rs", "pem", "x509-parser"]
+    e = shim_env  # as in the checks themselves: every simulated run sits on the system-call seam
     cases = [
-        ("dn-sim", "small", R, None, n_runs * 4), ("dn-sim", "wide", R, None, n_runs * 2),
-        ("sign-sim", "plain", R, None, n_runs), ("sign-sim", "faults", R, None, n_runs), ("sign-sim", "enum", R, None, n_runs // 4),
-        ("sign-sim", "rng", R, shim_env, n_runs), ("sign-sim", "enum-rng", R, shim_env, n_runs // 4),
-        ("sign-sim", "faults", N, None, n_runs),
-        ("purity-hist", "default", R, None, n_runs), ("purity-shuttle", "default", R + ["shuttle"], None, n_runs // 4),
-        ("replica-sim", "three:1:1", R, None, n_runs), ("replica-sim", "two:1:1", R, None, n_runs),
+        ("dn-sim", "small", R, e, n_runs * 4), ("dn-sim", "wide", R, e, n_runs * 2), ("dn-sim", "long", R, e, 16),
+        ("sign-sim", "plain", R, e, n_runs), ("sign-sim", "faults", R, e, n_runs), ("sign-sim", "enum", R, e, n_runs // 4),
+        ("sign-sim", "rng", R, e, n_runs), ("sign-sim", "enum-rng", R, e, n_runs // 4),
+        ("sign-sim", "faults", N, e, n_runs), ("sign-sim", "plain", A, e, n_runs),
+        ("purity-hist", "default", R, e, n_runs), ("purity-hist", "default", A, e, n_runs // 2),
+        ("purity-shuttle", "default", R + ["shuttle"], e, n_runs // 4),
+        ("replica-sim", "three:1:1", R, e, n_runs), ("replica-sim", "two:1:1", R, e, n_runs),
     ]
     bad = 0
     for engine, mode, feats, env, n in cases:
